@@ -292,6 +292,13 @@ def _campaign(tier, seed):
         [J('M', 'S1'), G('S1', 'S2', '1'), J('M', 'H1'), G('H1', 'H2', '1/2'), A(), J('M', 'S1'), A()],   # re-routed before and after assembling
         [J('M', 'S2'), J('S2', 'S3'), A()],                                             # duplicate names S2 / S3
         [J('M', 'F'), J('F', 'S1'), J('S1', 'F'), A('F'), A('S1')],                     # cycle not through the motor; non-motor starts
+        # the same worm mated again: the self-locking flag must follow the LAST accepted declaration, whichever side drives
+        [W('W', 'Wh', '2/5'), W('Wh', 'W', '1/20')], [W('Wh', 'W', '1/20'), W('W', 'Wh', '2/5')],
+        [W('Wh', 'W3', '1/20'), W('Wh', 'W3', '0')], [W('Wh', 'W3', '0'), W('Wh', 'W3', '1/20')],
+        [W('W3', 'Wh', '0'), W('Wh', 'W3', '1/20'), W('W3', 'Wh', '1/40')],
+        [J('M', 'Wh'), W('Wh', 'W3', '1/20'), A(), W('Wh', 'W3', '0'), A()],
+        [W('W', 'Wh', '2/5'), W('W', 'Wh', '11/10'), W('W', 'Wh', '1/20')],             # rejected re-declaration in between
+        [G('S1', 'S2', '9/10'), J('S1', 'S2'), G('S1', 'S2', '1'), J('F', 'S2')],       # mating, joint, mating again, another driver
     ]
     for i, calls in enumerate(crafted):
         traces.append(execute(f'rc{i}', uni, calls))
